@@ -633,6 +633,11 @@ def judge(run, cases, workdir, shards, name="trace", replayed=None):
     rejected, mismatch, selfcheck, results = validate_by_history(events, index, workdir, shards, name)
     for r in results:
         run.add_tlc(r)
+    # a self-check (premises of the generator: distinct values, address shown) that fails in a history the
+    # judge ALSO rejects is a consequence of the code's misbehaviour (e.g. a record whose JSON shows
+    # register readings it should have invalidated), not a generator defect: the rejection is reported
+    rej_hist = {events[i - 1]["h"] for i in rejected}
+    selfcheck = {i for i in selfcheck if events[i - 1]["h"] not in rej_hist}
     if selfcheck:
         i = min(selfcheck)
         raise core.ToolError("generator defect (values not distinct across aircraft, or address not shown): "
@@ -881,7 +886,9 @@ def coverage(events, cases):
 def check(run):
     thorough = run.tier == "thorough"
     live = None
-    if thorough:        # ~70 s of wall time, concurrent with everything else
+    if os.environ.get("VERIF_C12_LIVE", "1") != "0":
+        # ~70 s of wall time, concurrent with everything else (the quick tier's other steps take ~60 s, so
+        # the scenario adds ~15 s there; it is the only binding of the expiration task to the code)
         live_ex = cf.ThreadPoolExecutor(max_workers=1)
         live = live_ex.submit(live_scenario, os.path.join(run.work, "live"))
     short, rnd, hshort = generate(run, thorough)
@@ -961,8 +968,8 @@ def check(run):
         "history/REST part: the driver command `web` mirrors the main loop (update_snapshot, Filters::is_in, "
         "store_history unless history is off) and calls web::icao24/all/track/sensors; 'kept' is Filters::is_in as "
         "evaluated by the code (the filter itself is C11's subject); no TUI is drawn (non-interactive mode)",
-        "history expiry: exact semantics are spec only (inline closure in main(), wall clock); the thorough tier "
-        "runs the real binary with -x 1 across one 60 s tick and judges the two aircraft that were never silent",
+        "history expiry: exact semantics are spec only (inline closure in main(), wall clock); both tiers "
+        "run the real binary with -x 1 across one 60 s tick and judges the two aircraft that were never silent",
     ]
 
     if live is not None:
